@@ -1,2 +1,3 @@
 pub mod c15;
 pub mod c19;
+pub mod c01;
